@@ -331,6 +331,14 @@ def c18_4(ctx):
 
 
 def c18_5(ctx):
+    from rules.bitcodecs import golomb_cells, pack_cells, try_cells
+    g, pk = try_cells(golomb_cells, ctx), try_cells(pack_cells, ctx)
+    if g is not None and pk is not None:
+        return g + pk
+    return _c18_5_text(ctx)
+
+
+def _c18_5_text(ctx):
     out = []
     src_e = ast.unparse(rl.get(ctx, "compactfilter:encode_golomb")[1])
     src_d = ast.unparse(rl.get(ctx, "compactfilter:decode_golomb")[1])
@@ -648,7 +656,73 @@ def c18_14(ctx):
     return shared_obligations(ctx, ["compactfilter", "siphash", "bloomfilter", "helper"], "the result would depend on something other than the arguments and the object's current state")
 
 
+def c18_15(ctx):
+    """no false negatives: `x in filter` is decided by the filter's contents only.  Every value a __contains__ of compactfilter.py returns
+    must come from the membership test on the stored hashes (or from the wrapped filter); a constant `return False` reached through a test on
+    the *element* reports an inserted element absent"""
+    out = []
+    mod = ctx.repo.module("compactfilter")
+    for qn, fn in sorted(mod.functions.items()):
+        if not qn.endswith(".__contains__"):
+            continue
+        spec = "compactfilter:" + qn
+        ctx.note_fn(mod, fn)
+        cfg = cfg_of(fn)
+        probs = []
+        n_ret = 0
+        for n in cfg.returns():
+            v = n.ast.value if n.ast is not None else None
+            n_ret += 1
+            if isinstance(v, ast.Constant) and v.value in (False, None, 0):
+                tests = [t for t in cfg.tests() if any(b == n.id for b, _ in cfg.succ[t.id])]
+                probs.append("`return %s`%s answers without looking at the filter's contents" % (
+                    ast.unparse(v), (" under `%s`" % ast.unparse(tests[0].ast)[:50]) if tests else ""))
+            elif v is not None and not isinstance(v, ast.Constant):
+                o = origins(fn, n.id, v)
+                if not any(x.startswith("attr:self.") for x in o):
+                    probs.append("`return %s` does not depend on the filter" % ast.unparse(v)[:50])
+        if probs:
+            out.append(ctx.bad(spec, "%s: an element that was inserted can be reported absent (BIP158 / BIP37 filters have no false negatives)" % "; ".join(probs), fn, mod,
+                               key="no-false-negative:" + qn))
+        elif n_ret:
+            out.append(ctx.ok(spec, "every verdict comes from the membership test on the filter's contents", fn, mod, key="no-false-negative:" + qn))
+    if not out:
+        raise AnalysisError("no __contains__ found in compactfilter.py")
+    return out
+
+
+def c18_16(ctx):
+    """the Golomb-Rice decoder is total on what the encoder emits: the unary quotient has no upper bound in BIP158 (x >> P can be any
+    non-negative number), so decode_golomb must not refuse a value because its quotient is large"""
+    spec = "compactfilter:decode_golomb"
+    mod, fn = rl.get(ctx, spec)
+    cfg = cfg_of(fn)
+    counters = set()
+    for lp in cfg.loops.values():
+        for st in ast.walk(lp.stmt):
+            if isinstance(st, ast.AugAssign) and isinstance(st.op, ast.Add) and isinstance(st.target, ast.Name) and isinstance(st.value, ast.Constant) and st.value.value == 1:
+                counters.add(st.target.id)
+    f = Folder(ctx.repo, mod.name)
+    for n in cfg.nodes:
+        if n.kind != "raise":
+            continue
+        for t in cfg.tests():
+            if not any(b == n.id for b, _ in cfg.succ[t.id]):
+                continue
+            a = t.ast
+            if isinstance(a, ast.Compare) and len(a.ops) == 1:
+                sides = [a.left, a.comparators[0]]
+                names = [x.id for s_ in sides for x in ast.walk(s_) if isinstance(x, ast.Name)]
+                bound = next((f.fold(s_) for s_ in sides if isinstance(f.fold(s_), int)), None)
+                if set(names) & counters and bound is not None:
+                    return [ctx.bad(spec, "`%s` refuses a value whose unary quotient passes %d: every x >= %d * 2^P is emitted by encode_golomb and cannot be decoded, so a filter "
+                                          "with one wide gap does not parse" % (ast.unparse(a), bound, bound + 1), a, mod, key="golomb-total")]
+    return [ctx.ok(spec, "no refusal depends on the size of the unary quotient (%d counter(s) inspected)" % len(counters), fn, mod, key="golomb-total")]
+
+
 OBLIGATIONS = [
+    ("C18.15", "VERDICT-SOURCE", c18_15),
+    ("C18.16", "TOTALITY", c18_16),
     ("C18.14", "SHARED", c18_14),
     ("C18.13", "SET-ORDER", c18_13),
     ("C18.1", "TABLE", c18_1),
